@@ -453,7 +453,8 @@ impl Rc2 {
         self.cache_size += 1;
         self.low = (self.low & 0x00FF_FFFF) << 8;
     }
-    fn encode(&mut self, prob: &mut u16, bit: bool) {
+    /// Returns true if the range had to be normalised after this bit.
+    fn encode(&mut self, prob: &mut u16, bit: bool) -> bool {
         let bound = (self.range >> 11) * (*prob as u32);
         if !bit {
             self.range = bound;
@@ -463,10 +464,13 @@ impl Rc2 {
             self.range -= bound;
             *prob -= *prob >> 5;
         }
+        let mut norm = false;
         while self.range < (1 << 24) {
             self.range <<= 8;
             self.shift_low();
+            norm = true;
         }
+        norm
     }
     fn finish(mut self) -> Vec<u8> {
         for _ in 0..5 {
@@ -491,6 +495,14 @@ pub struct Bcj2Streams {
 /// (rel + ip_after) is appended big-endian to the CALL (E8) or JUMP (E9, Jcc) stream.
 pub fn bcj2_encode(data: &[u8], policy: u32, seed: u64) -> Bcj2Streams {
     let mut r = Rng::new(seed ^ 0xBC12);
+    bcj2_encode_with(data, |_, eligible| eligible && (policy >= 100 || (policy > 0 && r.below(100) < policy as u64))).0
+}
+
+/// The same encoder with the conversion decision supplied per marker (index in scan order, eligible?).
+/// Second result: for every marker, whether the range fell below 2^24 when its flag was coded (the decoder
+/// must then normalise, i.e. consume one byte of the RC stream, before the next flag).
+pub fn bcj2_encode_with(data: &[u8], mut decide: impl FnMut(usize, bool) -> bool) -> (Bcj2Streams, Vec<bool>) {
+    let mut norms = Vec::new();
     let mut probs = [1024u16; 2 + 256];
     let mut rc = Rc2::new();
     let mut s = Bcj2Streams { main: Vec::new(), call: Vec::new(), jump: Vec::new(), rc: Vec::new(), markers: 0, converted: 0 };
@@ -515,8 +527,8 @@ pub fn bcj2_encode(data: &[u8], policy: u32, seed: u64) -> Bcj2Streams {
             0
         };
         let eligible = i + 4 <= n;
-        let conv = eligible && (policy >= 100 || (policy > 0 && r.below(100) < policy as u64));
-        rc.encode(&mut probs[idx], conv);
+        let conv = eligible && decide(s.markers - 1, eligible);
+        norms.push(rc.encode(&mut probs[idx], conv));
         if conv {
             let rel = u32::from_le_bytes([data[i], data[i + 1], data[i + 2], data[i + 3]]);
             let abs = rel.wrapping_add((i + 4) as u32);
@@ -533,7 +545,7 @@ pub fn bcj2_encode(data: &[u8], policy: u32, seed: u64) -> Bcj2Streams {
         }
     }
     s.rc = rc.finish();
-    s
+    (s, norms)
 }
 
 // ------------------------------------------------------------------------------------------ cases
